@@ -10,10 +10,12 @@
   `trace` is the list of replies; `.added c` = add returned the cache, `.claimed c` = pop returned it,
   `.timedOut c` = its on_timeout was invoked.  Events that are not enabled are answered `.refused` and change nothing.
 
-  What the model assumes about asyncio is in the enabledness rules R1–R4 (Model.lean header); what it leaves out is
-  the re-registration of a cache object from inside its own on_timeout (`add c` while `running = some c` is refused).
+  What the model assumes about asyncio is in the enabledness rules R1–R4 (Model.lean header).  Re-registration of a
+  cache object from inside its own on_timeout is part of the model (after the two repairs in requestcache.py).
 -/
 import Ipv8.C10.Lemmas
+import Ipv8.C10.Source
+import Ipv8.C10.AsyncTask
 
 namespace Ipv8.C10
 
@@ -54,12 +56,13 @@ theorem no_timeout_after_pop (evs1 evs2 : List Ev) (p n c : Nat)
     simp [final_append, final_cons, final_nil]
   have hno : ¬ outstanding (final init (evs1 ++ [.pop p n])) c := by
     rw [← hfin]
-    simp only [step] at hpop ⊢
+    simp only [step, cancelPending] at hpop ⊢
     split at hpop
     · cases hpop
     · rename_i c0 hl
       injection hpop with hc; subst hc
-      simp [outstanding, upd]
+      have hc := (reach_inv evs1).idsOk _ _ hl
+      simp [outstanding, upd, hc.2.2]
   rw [hfin] at hnoadd ⊢
   exact (resolved_is_final _ evs2 c hno hnoadd).symm
 
@@ -76,10 +79,10 @@ theorem pop_after_timeout_keyerror (evs1 evs2 : List Ev) (c : Nat)
   have hfin : s1 = final init (evs1 ++ [.fireBegin c]) := by
     simp [s1, final_append, final_cons, final_nil]
   have hacc := fireBegin_accepted hfire
-  have hshape : s1.running = some c ∧ lookup (s1.caches c).ident s1.ids = none := by
+  have hshape : (s1.caches c).task = none ∧ lookup (s1.caches c).ident s1.ids = none := by
     have : s1 = _ := hacc.2.2.2.2
     rw [this]
-    simp [lookup_erase]
+    simp [lookup_erase, upd, Cache.ident]
   have hno : ¬ outstanding (final init (evs1 ++ [.fireBegin c])) c := by
     rw [← hfin]; simp [outstanding, hshape.1]
   refine ⟨?_, ?_⟩
@@ -96,8 +99,8 @@ theorem outstanding_iff_registered (evs : List Ev) (c : Nat) :
       lookup ((final init evs).caches c).ident (final init evs).ids = some c := by
   have h := reach_inv evs
   constructor
-  · intro ⟨h1, h2⟩; exact h.taskOk c h1 h2
-  · intro hl; have := h.idsOk _ _ hl; exact ⟨this.2.2.1, this.2.2.2⟩
+  · intro h1; exact h.taskOk c h1
+  · intro hl; exact (h.idsOk _ _ hl).2.2
 
 /-- UNIQUE IDENTITY.  While a request is outstanding under (p, n): constructing another cache for (p, n) raises
     (`NumberCache.__init__` guard), adding ANY cache object with that identity is refused with no state change at
@@ -118,13 +121,37 @@ theorem unique_identity (evs : List Ev) (p n c : Nat)
       cases hs : (final init evs).shutdown with
       | false => rfl
       | true => have := (h.sdOk hs).1; rw [this] at hout; simp at hout
-    simp only [step]
+    simp only [step, cancelPending]
     repeat' split
     all_goals simp_all
   · intro c' ho hid
-    have := h.taskOk c' ho.1 ho.2
+    have := h.taskOk c' ho
     rw [hid, hout] at this
     exact (Option.some.inj this).symm
+
+/-- RE-REGISTRATION FROM INSIDE on_timeout.  (a) An `add` that raises ("Task already exists": the cache's own timeout
+    task is still registered) or is refused as duplicate changes nothing — in particular it leaves no identifier
+    behind.  (b) The end of `_on_timeout` touches neither the table nor any timer: a request registered during
+    on_timeout (the timed-out cache itself after a `clear`, or any other) keeps its timer and stays outstanding. -/
+theorem reregistration_inside_on_timeout (s : St) (c : Nat) :
+    ((step s (.add c)).2 = .raised ∨ (step s (.add c)).2 = .dup → (step s (.add c)).1 = s)
+    ∧ ((step s .fireEnd).1.ids = s.ids ∧ ∀ c', ((step s .fireEnd).1.caches c').task = (s.caches c').task)
+    ∧ ((step s .fireAbort).1.ids = s.ids ∧ ∀ c', ((step s .fireAbort).1.caches c').task = (s.caches c').task) := by
+  refine ⟨?_, ?_, ?_⟩
+  · intro h
+    simp only [step, cancelPending] at h ⊢
+    repeat' split at h
+    all_goals first
+      | (rcases h with h | h <;> cases h; done)
+      | (repeat' split) <;> simp_all
+  · simp only [step]
+    split
+    · exact ⟨rfl, fun _ => rfl⟩
+    · refine ⟨rfl, fun c' => ?_⟩
+      simp only [upd_apply, Cache.completeFuts]
+      split <;> simp_all
+  · simp only [step]
+    split <;> exact ⟨rfl, fun _ => rfl⟩
 
 /-- FUTURES COMPLETED ON TIMEOUT.  When `_on_timeout` of c returns normally, every managed future of c that is
     still pending gets its on_timeout value (exception if it is an Exception instance, result otherwise); none is left
@@ -163,7 +190,7 @@ theorem shutdown_final (evs1 : List Ev) (hacc : (step (final init evs1) .shutdow
   have hsd : s1.shutdown = true := by simp [s1, step, hrun]
   refine ⟨?_, ?_, ?_⟩
   · intro c ho f hf
-    have hl := h0.taskOk c ho.1 ho.2
+    have hl := h0.taskOk c ho
     have hv := lookup_hasVal hl
     simp only [s1, step, hrun, Option.isSome_none, Bool.false_eq_true, if_false, hv, if_true,
       Cache.cancelFuts, List.mem_map] at hf
@@ -177,10 +204,9 @@ theorem shutdown_final (evs1 : List Ev) (hacc : (step (final init evs1) .shutdow
     obtain ⟨_, _, hr2⟩ := h2.sdOk hs2
     have hd' : ¬ ((final s1 evs2).caches c).delay ≤ Gen.minDelayExclusiveMs := by omega
     have hc' : ¬ (final s1 evs2).n ≤ c := by omega
-    refine ⟨by simp [step, hc', hr2, hd', hs2], ?_⟩
+    refine ⟨by simp [step, hc', hd', hs2], ?_⟩
     intro f hf
-    simp only [step, hc', hr2, hd', hs2, if_true, if_false, upd_same, Cache.cancelFuts, List.mem_map] at hf
-    simp at hf
+    simp [step, hc', hd', hs2, Cache.cancelFuts] at hf
     obtain ⟨g, _, rfl⟩ := hf
     exact cancel_not_pending g
 
@@ -194,7 +220,7 @@ theorem future_done_is_permanent (s : St) (evs : List Ev) (c i : Nat) (f : Fut) 
   | cons e es ih =>
     have hn : c < (step s e).1.n := by
       have : s.n ≤ (step s e).1.n := by
-        cases e <;> simp only [step, mkCache] <;> repeat' split
+        cases e <;> simp only [step, mkCache, cancelPending] <;> repeat' split
         all_goals simp_all
       omega
     exact ih _ hn (fut_done_stable' s e c i f hc hf hd)
@@ -220,13 +246,13 @@ theorem timeout_exactly_at_deadline (evs : List Ev) (c : Nat) :
           ((step (final init evs) (.add c)).1.caches c).task
             = some ((final init evs).now + effDelay (final init evs) ((final init evs).caches c))) := by
   have h := reach_inv evs
-  refine ⟨fun dl ho ht => h.timeOk c dl ht ho.2, ?_, ?_⟩
+  refine ⟨fun dl _ ht => h.timeOk c dl ht, ?_, ?_⟩
   · intro hf
     obtain ⟨_, hr, _, ⟨dl, ht, hle⟩, _⟩ := fireBegin_accepted hf
-    have := h.timeOk c dl ht (by simp [hr])
+    have := h.timeOk c dl ht
     rw [ht]; congr 1; omega
   · intro ha
-    exact (add_accepted ha).2.2.2.2.2.2
+    exact (add_accepted ha).2.2.2.2.2
 
 /-- the passthrough rule of `add`, spelled out -/
 theorem passthrough_rule (s : St) (ch : Cache) :
@@ -241,7 +267,7 @@ theorem passthrough_rule (s : St) (ch : Cache) :
 theorem find_unclaimed_sound (s : St) (p : Nat) (cands : List Nat) (d : Option Nat) (cls : Nat) (ks : List Bool)
     (c x : Nat) (h : (step s (.mkRandom p cands d cls ks)).2 = .okMk c x) :
     x ∈ cands.take Gen.findTries ∧ lookup (p, x) s.ids = none := by
-  simp only [step] at h
+  simp only [step, cancelPending] at h
   split at h
   · cases h
   · rename_i y hy
@@ -253,6 +279,142 @@ theorem find_unclaimed_sound (s : St) (p : Nat) (cands : List Nat) (d : Option N
     · injection h with _ hx; subst hx
       exact ⟨hm, by simpa using hp⟩
 
+/-- EXACTLY ONCE.  In a history without `clear`/`shutdown`, for every cache object:
+    registrations = claims + timeouts + (1 if it is outstanding now).  So every registration that is no longer
+    outstanding was resolved by exactly one claim or exactly one timeout — never both, never neither — and by
+    `timeout_exactly_at_deadline` an outstanding one is still before its deadline. -/
+theorem exactly_once (evs : List Ev) (c : Nat) (hnodrop : ∀ e ∈ evs, isDrop e = false) :
+    (trace init evs).count (.claimed c) + (trace init evs).count (.timedOut c)
+        + (if ((final init evs).caches c).task.isSome = true then 1 else 0)
+      = (trace init evs).count (.added c) := by
+  have h := run_count_eq init evs c inv_init hnodrop
+  have h0 : outN init c = 0 := by simp [outN, init]
+  simp only [outN] at h h0
+  omega
+
+/-- THE PROPERTY, in one statement.  For every history and every cache object c:
+    (1) claims + timeouts never exceed registrations, with equality up to "still outstanding" when nothing was dropped
+        by clear/shutdown;
+    (2) c is outstanding exactly while the table maps its identity to it, and then no other object with that identity
+        is outstanding;
+    (3) an outstanding request has not passed its deadline (its timeout is due exactly at the deadline);
+    (4) once shut down, nothing is outstanding. -/
+theorem each_request_resolved_exactly_once (evs : List Ev) (c : Nat) :
+    let s := final init evs
+    let tr := trace init evs
+    (tr.count (.claimed c) + tr.count (.timedOut c) ≤ tr.count (.added c))
+    ∧ ((∀ e ∈ evs, isDrop e = false) →
+         tr.count (.claimed c) + tr.count (.timedOut c) + (if (s.caches c).task.isSome = true then 1 else 0)
+           = tr.count (.added c))
+    ∧ (outstanding s c ↔ lookup (s.caches c).ident s.ids = some c)
+    ∧ (∀ c', outstanding s c → outstanding s c' → (s.caches c').ident = (s.caches c).ident → c' = c)
+    ∧ (∀ dl, (s.caches c).task = some dl → s.now ≤ dl)
+    ∧ (s.shutdown = true → ¬ outstanding s c) := by
+  intro s tr
+  have h := reach_inv evs
+  refine ⟨at_most_once evs c, exactly_once evs c, outstanding_iff_registered evs c, ?_, ?_, ?_⟩
+  · intro c' ho ho' hid
+    have hl := h.taskOk c ho
+    exact (unique_identity evs _ _ c (by simpa [Cache.ident] using hl)).2.2 c' ho' (by simpa [Cache.ident] using hid)
+  · intro dl ht; exact h.timeOk c dl ht
+  · intro hs ho
+    have hnone : (s.caches c).task = none := (h.sdOk hs).2.1 c
+    have ho' : (s.caches c).task.isSome = true := ho
+    rw [hnone] at ho'
+    cases ho'
+
+/-! ### rules R1/R2 at the level of asyncio.Task (AsyncTask.lean: a transcription of Task.cancel / __step / the sleep
+    future of delay_runner).  For every sequence of loop steps, timer callbacks, body ends and cancel() calls on one
+    timeout task: -/
+
+/-- `_on_timeout` is entered at most once per timeout task; a delayed task enters it only after its timer ran. -/
+theorem task_body_at_most_once (d : Bool) (es : List AsyncTask.Ev) :
+    (AsyncTask.run { delayed := d } es).bodyRuns ≤ 1 :=
+  (AsyncTask.good_run _ es (AsyncTask.good_init d)).once
+
+/-- R1: if `cancel()` is called before `_on_timeout` was entered — while the task is created, asleep, or already
+    woken with its wake-up still queued (pop and expiry in the same loop iteration) — `_on_timeout` is never entered,
+    whatever the loop does afterwards. -/
+theorem cancel_before_body_wins (d : Bool) (es1 es2 : List AsyncTask.Ev)
+    (hnot : (AsyncTask.run { delayed := d } es1).bodyRuns = 0)
+    (hlive : AsyncTask.isDone (AsyncTask.run { delayed := d } es1) = false) :
+    (AsyncTask.run { delayed := d } (es1 ++ [.cancel] ++ es2)).bodyRuns = 0 := by
+  have happ : ∀ (t : AsyncTask.T) (a b : List AsyncTask.Ev), AsyncTask.run t (a ++ b) = AsyncTask.run (AsyncTask.run t a) b := by
+    intro t a b
+    induction a generalizing t with
+    | nil => rfl
+    | cons e es ih => simp [AsyncTask.run, ih]
+  have hg := AsyncTask.good_run _ (es1 ++ [.cancel] ++ es2) (AsyncTask.good_init d)
+  have hseen : (AsyncTask.run { delayed := d } (es1 ++ [.cancel] ++ es2)).cancelSeen = true := by
+    rw [List.append_assoc, happ, happ]
+    generalize AsyncTask.run { delayed := d } es1 = t at hnot hlive
+    have h1 : (AsyncTask.run t [.cancel]).cancelSeen = true := by
+      simp only [AsyncTask.run, AsyncTask.step, hlive]
+      cases t.phase <;> simp [hnot]
+    exact AsyncTask.cancelSeen_run _ es2 h1
+  exact (hg.cancelWins hseen).1
+
+/-! ### the model's `step` IS what the source says (statement sequences regenerated from requestcache.py)
+
+  `Gen.addOps`, `Gen.popOps`, `Gen.onTimeoutOps`, `Gen.clearOps`, `Gen.shutdownOps` are produced by tools/gen_rc.py
+  from the current source; `Source.lean` gives each primitive its meaning.  The six theorems below say that executing
+  those lists is the same function as the hand-written `step` used by every theorem above — so all of them hold for
+  the statement order the source has today, and an edit that drops / adds / reorders an effectful statement of these
+  methods (identifier removed after on_timeout, pop without cancel, identifier stored before register_task, trailing
+  cancel in `_on_timeout`, shutdown without cancelling futures …) makes one of them fail to compile. -/
+
+theorem add_follows_source (s : St) (c : Nat) : addViaSource s c = step s (.add c) := by
+  unfold addViaSource
+  by_cases hn : s.n ≤ c
+  · simp [step, hn]
+  by_cases hd : (s.caches c).delay ≤ Gen.minDelayExclusiveMs
+  · simp [step, hn, hd, Gen.addOps, runPrims, result, prim]
+  cases hs : s.shutdown with
+  | true => simp [step, hn, hd, hs, Gen.addOps, runPrims, result, prim]
+  | false =>
+    cases hl : lookup (s.caches c).ident s.ids with
+    | some x => simp [step, hn, hd, hs, hl, Gen.addOps, runPrims, result, prim]
+    | none =>
+      by_cases hb : nameTaken s c = true
+      · simp [step, hn, hd, hs, hl, hb, Gen.addOps, runPrims, result, prim]
+      · simp [step, hn, hd, hs, hl, hb, Gen.addOps, runPrims, result, prim]
+
+theorem pop_follows_source (s : St) (p n : Nat) : popViaSource s p n = step s (.pop p n) := by
+  simp only [popViaSource, step, Gen.popOps, runPrims, List.foldl, result, prim]
+  repeat' split
+  all_goals simp_all
+
+theorem clear_follows_source (s : St) : clearViaSource s = step s .clear := by
+  simp [clearViaSource, step, Gen.clearOps, runPrims, result, prim]
+
+theorem shutdown_follows_source (s : St) : shutdownViaSource s = step s .shutdown := by
+  unfold shutdownViaSource
+  cases hr : s.running with
+  | some r => simp [step, hr]
+  | none =>
+    simp only [step, hr, Gen.shutdownOps, runPrims, List.foldl, result, prim, Option.isSome_none,
+      Bool.false_eq_true, if_false, Option.getD_some]
+    congr 2
+
+theorem fireBegin_follows_source (s : St) (c : Nat) : fireBeginViaSource s c = step s (.fireBegin c) := by
+  unfold fireBeginViaSource
+  cases hr : s.running with
+  | some r => simp [step, hr]
+  | none =>
+    by_cases hn : s.n ≤ c
+    · simp [step, hr, hn]
+    cases ht : (s.caches c).task with
+    | none => simp [step, hr, hn, ht]
+    | some dl =>
+      by_cases hd : s.now < dl
+      · simp [step, hr, hn, ht, hd]
+      · simp [step, hr, hn, ht, hd, beforeCall, Gen.onTimeoutOps, runPrims, prim]
+
+theorem fireEnd_follows_source (s : St) : fireEndViaSource s = step s .fireEnd := by
+  unfold fireEndViaSource
+  cases hr : s.running with
+  | none => simp [step, hr]
+  | some c => simp [step, hr, afterCall, Gen.onTimeoutOps, runPrims, prim]
 /-! ### non-vacuity: concrete histories exercising the hypotheses -/
 
 /-- two caches with the same identity (0,1): the second constructor raises, the first is claimed, a late fire is
@@ -280,9 +442,20 @@ example : trace init [.mk 0 1 (some 1000) 0 [true], .shutdown, .add 0, .tick 500
 /-- futures on timeout: exception-valued and result-valued futures, one completed externally before -/
 example : ((final init [.mk 0 1 (some 250) 0 [true, false, false], .add 0, .futSet 0 2, .tick 250, .fireBegin 0,
                         .fireEnd]).caches 0).futs.map (·.st) = [.exception, .result, .extSet] := by decide
+/-- Task level: pop in the same loop iteration as the expiry (timer ran, wake-up queued, then cancel): no body -/
+example : (AsyncTask.run { delayed := true } [.step, .timer, .cancel, .step]).bodyRuns = 0
+    ∧ (AsyncTask.run { delayed := true } [.step, .timer, .cancel, .step]).phase = .cancelled := by decide
+example : (AsyncTask.run { delayed := true } [.step, .timer, .step, .cancel, .bodyEnd]).bodyRuns = 1 := by decide
+example : (AsyncTask.run { delayed := false } [.cancel, .step, .step]).bodyRuns = 0 := by decide
 /-- clear drops an outstanding request: its timer never fires, a late pop finds nothing -/
 example : trace init [.mk 0 1 (some 1000) 0 [false], .add 0, .clear, .tick 1000, .fireBegin 0, .pop 0 1]
     = [.okMk 0 1, .added 0, .done, .overdue [], .refused, .keyError] := by decide
+/-- re-registration from inside the own on_timeout: refused with no trace while the timeout task is registered;
+    after a clear it succeeds, survives the end of on_timeout and times out at its new deadline -/
+example : trace init [.mk 0 1 (some 250) 0 [], .add 0, .tick 250, .fireBegin 0, .add 0, .get 0 1, .clear, .add 0,
+                      .fireEnd, .get 0 1, .tick 500, .fireBegin 0, .fireEnd, .get 0 1]
+    = [.okMk 0 1, .added 0, .overdue [], .timedOut 0, .raised, .got none, .done, .added 0,
+       .fired 0, .got (some 0), .overdue [], .timedOut 0, .fired 0, .got none] := by decide
 /-- passthrough with a class filter: class 1 (subclass of 0) gets the override 0 ms, class 3 keeps its delay -/
 example : trace init [.enter 0 (some [0]), .mk 0 1 (some 1000) 1 [], .mk 0 2 (some 1000) 3 [], .add 0, .add 1, .exit,
                       .fireBegin 0, .fireBegin 1]
